@@ -1119,23 +1119,27 @@ def canary(ctx):
     from harness import common
     json.dump(common.jsonable(cases), open(cf, 'w'))
     limit = 480    # ~15 s unloaded (import + JIT + 90 small searches); generous so that a loaded machine never trips it
+    import shutil
     try:
-        p = subprocess.run([sys.executable, '-m', 'harness.props.c14', '--canary', cf, pfile], timeout=limit,
-                           stdout=subprocess.PIPE, stderr=subprocess.PIPE, cwd=common.VERIF)
-        if p.returncode != 0:
-            ctx.violation('correspondence', 'canary process failed: %s' % p.stderr.decode()[-300:], {'canary': True})
-        return True
-    except subprocess.TimeoutExpired:
         try:
-            i = int(open(pfile).read().strip() or 0)
-        except Exception:
-            i = 0
-        case = cases[min(i, len(cases) - 1)]
-        ctx.case(case)
-        ctx.violation('oracle', 'a_star_search did not return within %d s (non-terminating search loop) for start %r goal %r on a %dx%d '
-                      'surface' % (limit, case['start'], case['goal'], len(case['data']), len(case['data'][0])),
-                      dict(case, hang=True), key=None)
-        return False
+            p = subprocess.run([sys.executable, '-m', 'harness.props.c14', '--canary', cf, pfile], timeout=limit,
+                               stdout=subprocess.PIPE, stderr=subprocess.PIPE, cwd=common.VERIF)
+            if p.returncode != 0:
+                ctx.violation('correspondence', 'canary process failed: %s' % p.stderr.decode()[-300:], {'canary': True})
+            return True
+        except subprocess.TimeoutExpired:
+            try:
+                i = int(open(pfile).read().strip() or 0)
+            except Exception:
+                i = 0
+            case = cases[min(i, len(cases) - 1)]
+            ctx.case(case)
+            ctx.violation('oracle', 'a_star_search did not return within %d s (non-terminating search loop) for start %r goal %r on a %dx%d '
+                          'surface' % (limit, case['start'], case['goal'], len(case['data']), len(case['data'][0])),
+                          dict(case, hang=True), key=None)
+            return False
+    finally:
+        shutil.rmtree(d, ignore_errors=True)
 
 
 def _norm(c):
